@@ -8,6 +8,7 @@ import (
 	"fmt"
 	"io/ioutil"
 	"os"
+	"runtime/pprof"
 	"strconv"
 
 	"qedverif/lib"
@@ -44,19 +45,31 @@ func main() {
 		fmt.Fprintln(os.Stderr, "usage: qv run <property> [--tier t] [--seed n] | qv worker <name> ...")
 		os.Exit(2)
 	}
+	if pf := os.Getenv("QV_CPUPROFILE"); pf != "" {
+		f, err := os.Create(pf)
+		if err == nil {
+			pprof.StartCPUProfile(f)
+		}
+	}
+	code := realMain()
+	pprof.StopCPUProfile()
+	os.Exit(code)
+}
+
+func realMain() int {
 	switch os.Args[1] {
 	case "worker":
 		w, ok := workers[os.Args[2]]
 		if !ok {
 			fmt.Fprintln(os.Stderr, "unknown worker", os.Args[2])
-			os.Exit(2)
+			return 2
 		}
-		os.Exit(w(os.Args[3:]))
+		return w(os.Args[3:])
 	case "replay":
 		buf, err := ioutil.ReadFile(os.Args[2])
 		if err != nil {
 			fmt.Fprintln(os.Stderr, err)
-			os.Exit(2)
+			return 2
 		}
 		var rep struct {
 			Property string
@@ -66,12 +79,12 @@ func main() {
 		}
 		if err := json.Unmarshal(buf, &rep); err != nil {
 			fmt.Fprintln(os.Stderr, err)
-			os.Exit(2)
+			return 2
 		}
 		run, ok := runners[rep.Property]
 		if !ok {
 			fmt.Fprintln(os.Stderr, "unknown property", rep.Property)
-			os.Exit(2)
+			return 2
 		}
 		c := lib.NewCtx(rep.Property, rep.Tier, rep.Seed, envOr("VERIF_ROOT", "/verif"))
 		if id, ok := rep.Detail["id"].(string); ok {
@@ -80,7 +93,7 @@ func main() {
 		c.NoEvidence = true
 		fmt.Printf("replaying %s tier=%s seed=%d case=%q\n", rep.Property, rep.Tier, rep.Seed, c.Only)
 		run(c)
-		os.Exit(c.Finish())
+		return c.Finish()
 	case "run":
 		prop := os.Args[2]
 		fs := flag.NewFlagSet("run", flag.ExitOnError)
@@ -93,15 +106,15 @@ func main() {
 		run, ok := runners[prop]
 		if !ok {
 			fmt.Fprintln(os.Stderr, "unknown property", prop)
-			os.Exit(2)
+			return 2
 		}
 		c := lib.NewCtx(prop, *tier, *seed, *root)
 		c.Only = *only
 		run(c)
-		os.Exit(c.Finish())
+		return c.Finish()
 	default:
 		fmt.Fprintln(os.Stderr, "unknown command", os.Args[1])
-		os.Exit(2)
+		return 2
 	}
 }
 
